@@ -306,10 +306,14 @@ class RealHistory:
                         yield False
             style = st[4] if len(st) > 4 else 'explicit'
             if style == 'inferred' and arity >= 0:
-                params = ','.join('a%d' % i for i in range(arity))
-                ns = {'pred': pred}
-                exec('def f(%s):\n    return pred(%s)\n' % (params, params), ns)
-                yp.register_function(name, ns['f'])
+                # the kind of callable rotates: plain function, decorated (functools.wraps), partial, bound method, ...
+                from .callables import KINDS, variant
+                self.nregistered = getattr(self, 'nregistered', 0) + 1
+                import zlib
+                kind = KINDS[zlib.crc32(repr((name, arity, self.nregistered, rows)).encode()) % len(KINDS)]
+                self.callable_kinds = getattr(self, 'callable_kinds', {})
+                self.callable_kinds[kind] = self.callable_kinds.get(kind, 0) + 1
+                yp.register_function(name, variant(lambda args: pred(*args), arity, kind))
             else:
                 yp.register_function(name, pred, arity=arity)
         elif k == 'load_bad':
